@@ -95,6 +95,7 @@ type binding struct {
 	name  string
 	path  []string   // alias (value binding)
 	value *univ.Node // key / index binding
+	depth int        // number of bindings in scope where the quantifier stands
 }
 
 type interp struct {
@@ -449,6 +450,12 @@ func (in *interp) resolve(path []string, env []binding) resolved {
 			}
 			np := append(append([]string(nil), b.path...), path[1:]...)
 			path = np
+			// the alias stands for a path written where the quantifier
+			// stands: it is resolved through the bindings enclosing that
+			// quantifier, not through its own index/key name
+			if b.depth < i {
+				i = b.depth
+			}
 		}
 	}
 	r, at := in.walk(path)
@@ -873,19 +880,20 @@ func (in *interp) evalQuant(q *xgen.Quant, env []binding) Allowed {
 		}
 		alias := append(append([]string(nil), q.Sel.Parts...), key)
 		inner := append([]binding(nil), env...)
+		d := len(env)
 		switch q.Mode {
 		case xgen.BindDefault:
 			if isMap {
-				inner = append(inner, binding{name: q.Name, value: keyNode})
+				inner = append(inner, binding{name: q.Name, value: keyNode, depth: d})
 			} else {
-				inner = append(inner, binding{name: q.Name, path: alias})
+				inner = append(inner, binding{name: q.Name, path: alias, depth: d})
 			}
 		case xgen.BindIndex:
-			inner = append(inner, binding{name: q.Name, value: keyNode})
+			inner = append(inner, binding{name: q.Name, value: keyNode, depth: d})
 		case xgen.BindValue:
-			inner = append(inner, binding{name: q.Name2, path: alias})
+			inner = append(inner, binding{name: q.Name2, path: alias, depth: d})
 		case xgen.BindIndexValue:
-			inner = append(inner, binding{name: q.Name, value: keyNode}, binding{name: q.Name2, path: alias})
+			inner = append(inner, binding{name: q.Name, value: keyNode, depth: d}, binding{name: q.Name2, path: alias, depth: d})
 		}
 		return in.eval(q.Body, inner)
 	}
